@@ -138,8 +138,11 @@ pub fn run(_args: &[String]) {
                                 }
                             }
                             "std" => {
-                                v["error"] = json!("org.varlink.service.InvalidParameter");
-                                v["parameters"] = json!({"parameter": format!("p{}", k)});
+                                // the four standard errors in turn, each with its own parameter
+                                let (name, key) = [("InvalidParameter", "parameter"), ("InterfaceNotFound", "interface"),
+                                                   ("MethodNotFound", "method"), ("MethodNotImplemented", "method")][(base + k) % 4];
+                                v["error"] = json!(format!("org.varlink.service.{}", name));
+                                v["parameters"] = json!({key: format!("p{}x{}", k, base)});
                             }
                             _ => {
                                 v["error"] = json!(format!("org.example.t.Custom{}", k));
@@ -240,8 +243,9 @@ pub fn run(_args: &[String]) {
                         }
                         if let Some(p) = r.get("parameters") {
                             if name.starts_with("org.varlink.service.") {
-                                if !se.contains(p["parameter"].as_str().unwrap()) {
-                                    fail(format!("stderr does not show the error parameter {}: {:?}", p["parameter"], lossy(se.as_bytes())));
+                                let pv = p.as_object().and_then(|o| o.values().next()).and_then(|x| x.as_str()).unwrap_or("");
+                                if !se.contains(pv) {
+                                    fail(format!("stderr does not show the error parameter {}: {:?}", p, lossy(se.as_bytes())));
                                     continue;
                                 }
                             } else {
